@@ -279,10 +279,10 @@ func c11RunRecipe(c c11Case) error {
 var longWords = []string{strings.Repeat("x", 256), strings.Repeat("é", 255), strings.Repeat("é", 256), strings.Repeat("ab", 300), strings.Repeat("正", 128), strings.Repeat("y", 255)}
 
 func TestC11(t *testing.T) {
-	ev.Check(t, "c11_tokens", ev.N(12000, 300000), func(t *rapid.T) c11Case {
+	ev.Check(t, "c11_tokens", ev.N(80000, 1200000), func(t *rapid.T) c11Case {
 		return c11Case{Toks: genToks(t), Entropy: rapid.Float32().Draw(t, "entropy")}
 	}, c11RunToks)
-	ev.Check(t, "c11_recipe", ev.N(8000, 200000), func(t *rapid.T) c11Case {
+	ev.Check(t, "c11_recipe", ev.N(48000, 600000), func(t *rapid.T) c11Case {
 		c := c11Case{TapeKey: rapid.Uint64().Draw(t, "tape"), Script: gen.Uint32s(t, "script", 6)}
 		switch rapid.IntRange(0, 3).Draw(t, "kind") {
 		case 0:
